@@ -135,6 +135,65 @@ pub fn computed_program(t: &mut Tree, node: Tid, s: &mut crate::src::Src<'_>, bu
     }
 }
 
+/// The consensus flags that switch CLVM *operators* (hard-fork activations and
+/// interpreter options). They are inert for quoted condition lists; they matter
+/// as soon as a puzzle executes the operators concerned, see `op_probe`.
+pub const OP_FLAGS: [ConsensusFlags; 6] = [
+    ConsensusFlags::RELAXED_BLS,
+    ConsensusFlags::ENABLE_KECCAK_OPS_OUTSIDE_GUARD,
+    ConsensusFlags::ENABLE_SHA256_TREE,
+    ConsensusFlags::ENABLE_SECP_OPS,
+    ConsensusFlags::MALACHITE,
+    ConsensusFlags::ENABLE_GC,
+];
+
+/// the subset of `OP_FLAGS` selected by the low six bits
+pub fn op_flag_subset(bits: usize) -> ConsensusFlags {
+    let mut f = ConsensusFlags::empty();
+    for (i, fl) in OP_FLAGS.iter().enumerate() {
+        if bits >> i & 1 == 1 {
+            f |= *fl;
+        }
+    }
+    f
+}
+
+/// a CLVM expression over quoted constants whose outcome (value, cost, or
+/// raise) depends on one of the operator flags: `bls_g1_negate`/`bls_g2_negate`
+/// of a right-sized atom that is no point (RELAXED_BLS), `keccak256`,
+/// `sha256tree`, `secp256k1_verify` with garbage arguments (unknown operators
+/// unless enabled), `modpow` (DISABLE_OP), `%` and `divmod` (MALACHITE backend)
+pub fn op_probe(t: &mut Tree, s: &mut crate::src::Src<'_>) -> (Tid, &'static str) {
+    let q = t.atom(&[1]);
+    let call = |t: &mut Tree, op: u8, args: &[&[u8]]| -> Tid {
+        let mut items = vec![t.atom(&[op])];
+        for a in args {
+            let x = t.atom(a);
+            items.push(t.pair(q, x));
+        }
+        t.list(&items)
+    };
+    match s.below(8) {
+        0 => (call(t, 51, &[&[0x11; 48]]), "probe:bls_g1_negate-of-non-point"),
+        1 => (call(t, 55, &[&[0x11; 96]]), "probe:bls_g2_negate-of-non-point"),
+        2 => (call(t, 62, &[b"probe"]), "probe:keccak256"),
+        3 => (call(t, 63, &[b"probe"]), "probe:sha256tree"),
+        4 => (call(t, 60, &[&[3], &[5], &[7]]), "probe:modpow"),
+        5 => (call(t, 61, &[&[0x7f, 0x11, 0x22, 0x33, 0x44, 0x55, 0x66, 0x77, 0x88], &[0x83]]), "probe:mod-negative-divisor"),
+        6 => (call(t, 64, &[&[2; 33], &[3; 32], &[4; 64]]), "probe:secp256k1_verify-garbage"),
+        _ => (call(t, 20, &[&[0x81, 0x00, 0x01], &[0x7f]]), "probe:divmod-negative-dividend"),
+    }
+}
+
+/// `prog` preceded by an operator probe: `(i PROBE prog prog)` evaluates the
+/// probe (all arguments of `i` are evaluated) and yields `prog`'s value
+/// whatever the probe returns; it fails iff the probe raises
+pub fn with_probe(t: &mut Tree, prog: Tid, s: &mut crate::src::Src<'_>) -> (Tid, &'static str) {
+    let (probe, name) = op_probe(t, s);
+    let i = t.atom(&[3]);
+    (t.list(&[i, probe, prog, prog]), name)
+}
+
 /// `CoinSpend`s of a bundle generated with `cfg.eval_puzzles`: the solution of
 /// every spend is `(program)` where `program` computes the spend's condition
 /// list at run time
